@@ -37,9 +37,11 @@ VARIABLES addr,   \* device address
           stale,  \* ghost (KF carve-out): a standard request is still being handled
           armed,  \* ghost (KF carve-out): a SETUP token was not yet followed by a parsable data packet
           unacked,\* ghost (KF carve-out): a data-stage packet was sent on ep0 and not acknowledged yet
-          lastOut \* ghost (KF carve-out): endpoint of the last readable token for the device if it was an OUT (else NoEp)
+          lastOut,\* ghost (KF carve-out): endpoint of the last readable token for the device if it was an OUT (else NoEp)
+          tgl,    \* Ref: per other IN endpoint, the data toggle of its next new packet (0, 1; 2 = not determined)
+          pend    \* Ref: endpoint whose DATA packet is outstanding - sent, not ACKed, no token for the device since (NoEp)
 
-vars == <<addr, cfg, xf, ctx, act, resp, stale, armed, unacked, lastOut>>
+vars == <<addr, cfg, xf, ctx, act, resp, stale, armed, unacked, lastOut, tgl, pend>>
 NoEp == 99
 
 Min(a, b) == IF a < b THEN a ELSE b
@@ -85,12 +87,12 @@ ClassOf(s) == IF s.type # 0 THEN "unsup"
               ELSE IF s.req = 1 /\ ~(s.rcpt = 2 /\ s.val = 0) THEN "unsup"      \* only ENDPOINT_HALT on an endpoint
               ELSE "sup"
 
-NoXfer == [st |-> "none", cls |-> "sup", dirIn |-> FALSE, type |-> 0, req |-> 0, val |-> 0, len |-> 0,
+NoXfer == [st |-> "none", cls |-> "sup", dirIn |-> FALSE, type |-> 0, req |-> 0, val |-> 0, idx |-> 0, len |-> 0,
            sent |-> 0, tog |-> 1, fin |-> FALSE]
 (* A SETUP starts a fresh transfer; everything about it is computed from the 8 bytes alone. *)
 NewXfer(b) == LET s == SetupOf(b) IN
     [st |-> IF s.len > 0 THEN (IF s.dirIn THEN "din" ELSE "dout") ELSE "sin",
-     cls |-> ClassOf(s), dirIn |-> s.dirIn, type |-> s.type, req |-> s.req, val |-> s.val, len |-> s.len,
+     cls |-> ClassOf(s), dirIn |-> s.dirIn, type |-> s.type, req |-> s.req, val |-> s.val, idx |-> s.idx, len |-> s.len,
      sent |-> 0, tog |-> 1, fin |-> FALSE]
 
 Open(x) == x.st \in {"din", "dout", "sin", "sout"}
@@ -114,7 +116,9 @@ Kind(a) ==
         ELSE IF ctx.k = "out" THEN (IF ctx.ep = 0 THEN "out0_data" ELSE IF ctx.ep \in OutEps THEN "out_ep_data"
                                     ELSE "out_none_data")
         ELSE "stray_data"
-    ELSE IF a.a = "hs" THEN (IF ctx.k = "sent" /\ a.pid = "ACK" THEN "ack" ELSE "stray_hs")
+    ELSE IF a.a = "hs" THEN (IF ctx.k = "sent" /\ a.pid = "ACK" THEN "ack"
+                             ELSE IF ctx.k = "fin" /\ a.pid = "ACK" THEN "foreign_ack"     \* the host ACKs another device's data
+                             ELSE "stray_hs")
     ELSE a.a                                   \* "sof" "junk" "reset" "idle"
 
 (* The stage an ep0 token sees: an IN token ends an OUT data stage, an OUT token ends an IN data stage. *)
@@ -165,7 +169,9 @@ Judge(a, r) ==
       [] k = "in0" -> JudgeIn0(xf, r)
       [] k = "out0_data" -> JudgeOut0(xf, a, r)
       [] k = "in_ep" -> IF Unit THEN (IF r.k = "none" THEN "ok" ELSE "unsolicited")
-                        ELSE IF IsData(r) \/ r.k = "NAK" THEN "ok" ELSE "ep_resp"
+                        ELSE IF r.k = "NAK" THEN "ok"
+                        ELSE IF ~IsData(r) THEN "ep_resp"
+                        ELSE IF tgl[a.ep] \in {2, TogOf(r)} THEN "ok" ELSE "ep_toggle"
       [] k = "out_ep_data" -> IF Unit \/ ~a.ok THEN (IF r.k = "none" THEN "ok" ELSE "unsolicited")
                               ELSE IF r.k \in {"ACK", "NAK"} THEN "ok" ELSE "ep_resp"
       [] k \in {"in_none", "out_none_data"} ->
@@ -220,6 +226,7 @@ CtxAfter(a, r) ==
     ELSE IF k \in {"in0", "in_ep"} /\ IsData(r) THEN [k |-> "sent", ep |-> a.ep, n |-> Len(r.bytes)]
     ELSE IF k = "foreign" /\ a.pid \in {"SETUP", "OUT"}                 \* someone else's token / an unreadable one
          THEN [k |-> IF a.ok THEN "ftok" ELSE "btok", ep |-> 0, n |-> 0]
+    ELSE IF k = "foreign" /\ a.pid = "IN" THEN [k |-> "fin", ep |-> 0, n |-> 0]   \* another device is asked for data
     ELSE IF k = "idle" THEN ctx
     ELSE NoCtx
 
@@ -238,8 +245,14 @@ KF_C07b(a) == Kind(a) = "ack" /\ ctx.ep # 0 /\ unacked /\ xf.st = "din" /\ xf.ty
 (* (C08c, "CLEAR_FEATURE consumed by a foreign ACK", was repaired in /repo 831e53c: no carve-out any more.) *)
 KF_C20a(a) == a.a = "data" /\ a.ok /\ ctx.k = "btok" /\ lastOut \in OutEps         \* data after an unreadable token, an OUT endpoint addressed before
 KF_C08(a)  == Kind(a) = "ack" /\ ctx.ep # 0 /\ stale /\ xf.type = 0 /\ xf.req \in {5, 9}   \* foreign ACK while SET_x pending
-KfTrip(a) == IF KF_C06b(a) THEN "C06b" ELSE IF KF_C06c(a) THEN "C06c"
-           ELSE IF KF_C07(a) THEN "C07" ELSE IF KF_C07b(a) THEN "C07b" ELSE IF KF_C08(a) THEN "C08" ELSE IF KF_C20a(a) THEN "C20a" ELSE "none"
+(* KF_C06b .. KF_C20a above name the triggers of defects that have all been repaired in /repo (bdfbff3     *)
+(* c385d7f 2bb1db7 8f6ce42 740d720 831e53c); they are kept as documentation of the witness classes but no   *)
+(* longer restrict the clean Env.  Open: a host ACK that follows a token for ANOTHER ADDRESS (invisible to  *)
+(* the address-filtered token detector) while a control-transfer packet of this device is outstanding.      *)
+KF_FA(a) == /\ Kind(a) = "foreign_ack" /\ pend = 0
+            /\ \/ (xf.st = "din" /\ xf.type = 0 /\ xf.req = 6)
+               \/ (xf.st = "sin" /\ xf.cls = "sup" /\ xf.req \in {1, 5, 9})
+KfTrip(a) == IF KF_FA(a) THEN "FA" ELSE "none"
 
 ArmedAfter(a) ==
     LET k == Kind(a) IN
@@ -248,6 +261,24 @@ ArmedAfter(a) ==
     ELSE IF a.a = "tok" /\ Me(a) THEN FALSE
     ELSE IF a.a = "data" /\ a.ok /\ Len(a.bytes) <= 8 THEN FALSE
     ELSE armed
+(* The data toggle of the other IN endpoints: it advances exactly on the host's ACK of that endpoint's   *)
+(* packet; CLEAR_FEATURE(ENDPOINT_HALT) on it, SET_CONFIGURATION and a bus reset re-initialise it (how is  *)
+(* engine usb2ep's business: here it becomes "not determined" and is learnt again from the next packet);   *)
+(* so does a foreign-address ACK while that endpoint's own packet is outstanding (finding family C17).     *)
+TglAfter(a, r) ==
+    LET k == Kind(a) IN
+    IF k = "reset" \/ (Commits(a) /\ xf.req = 9) THEN [e \in InEps |-> 2]
+    ELSE IF Commits(a) /\ xf.req = 1 THEN [e \in InEps |-> IF xf.idx = 128 + e THEN 2 ELSE tgl[e]]
+    ELSE IF k = "in_ep" /\ IsData(r) THEN [tgl EXCEPT ![a.ep] = TogOf(r)]
+    ELSE IF k = "ack" /\ ctx.ep \in InEps THEN [tgl EXCEPT ![ctx.ep] = IF tgl[ctx.ep] = 2 THEN 2 ELSE 1 - tgl[ctx.ep]]
+    ELSE IF k = "foreign_ack" /\ pend \in InEps THEN [tgl EXCEPT ![pend] = 2]
+    ELSE tgl
+PendAfter(a, r) ==
+    LET k == Kind(a) IN
+    IF k \in {"in0", "in_ep"} /\ IsData(r) THEN a.ep
+    ELSE IF a.a = "tok" /\ Me(a) THEN NoEp
+    ELSE IF k \in {"ack", "reset"} THEN NoEp
+    ELSE pend
 LastOutAfter(a) ==
     IF a.a # "tok" \/ ~a.ok THEN lastOut
     ELSE IF a.addr = addr /\ a.pid = "OUT" THEN a.ep ELSE NoEp
@@ -276,7 +307,8 @@ EnvOK(a) ==
     /\ Kind(a) \in {"in0", "out0_tok"} => xf.cls # "gray"                   \* a non-canonical request is not pursued
     /\ Kind(a) \in {"in0", "out0_tok"} => xf.st # "reset"                   \* after a bus reset the host starts with a SETUP
     /\ (Kind(a) = "setup_tok") => a.ep = 0                                   \* SETUP goes to the control endpoint
-    /\ a.a = "hs" => (a.pid = "ACK" /\ ctx.k = "sent")                       \* the host only ACKs data it was sent
+    /\ a.a = "hs" => (a.pid = "ACK" /\ ctx.k \in {"sent", "fin"})     \* the host ACKs data it was just sent - by this device,
+                                                                      \* or (invisibly to it) by a device at another address
     /\ (Kind(a) = "out0_data" /\ a.ok /\ StageForOut(xf) = "sout") => (a.pid = "DATA1" /\ a.bytes = <<>>)
     /\ (Kind(a) = "in0" /\ xf.st = "din") => ~xf.fin                         \* no IN after the data stage ended
     /\ Clean => KfTrip(a) = "none"
@@ -288,9 +320,11 @@ Step(a, r) ==
     /\ ctx' = CtxAfter(a, r)
     /\ stale' = StaleAfter(a, r) /\ armed' = ArmedAfter(a) /\ unacked' = UnackedAfter(a, r)
     /\ lastOut' = LastOutAfter(a)
+    /\ tgl' = TglAfter(a, r) /\ pend' = PendAfter(a, r)
 
 Init == /\ addr = 0 /\ cfg = 0 /\ xf = NoXfer /\ ctx = NoCtx /\ act = NoAct /\ resp = RNone
         /\ stale = FALSE /\ armed = FALSE /\ unacked = FALSE /\ lastOut = NoEp
+        /\ tgl = [e \in InEps |-> 0] /\ pend = NoEp
 
 (* One step of the composed system: the host does anything the Env allows, the device answers with  *)
 (* anything Ref allows.  Acts / Resps are the (finite) alphabets of the model instance.              *)
@@ -308,7 +342,8 @@ CtxIsLastPacket ==
        /\ (ctx'.k = "sent")  <=> (act'.a = "tok" /\ act'.pid = "IN" /\ act'.ok /\ act'.addr = addr /\ IsData(resp')
                                   /\ ctx'.ep = act'.ep /\ ctx'.n = Len(resp'.bytes))
        /\ (ctx'.k = "ftok")  <=> (act'.a = "tok" /\ act'.pid \in {"SETUP", "OUT"} /\ act'.ok /\ act'.addr # addr)
-       /\ (ctx'.k = "btok")  <=> (act'.a = "tok" /\ act'.pid \in {"SETUP", "OUT"} /\ ~act'.ok)]_vars
+       /\ (ctx'.k = "btok")  <=> (act'.a = "tok" /\ act'.pid \in {"SETUP", "OUT"} /\ ~act'.ok)
+       /\ (ctx'.k = "fin")   <=> (act'.a = "tok" /\ act'.pid = "IN" /\ ~(act'.ok /\ act'.addr = addr))]_vars
 (* ... and that packet is accepted iff it is a CRC-valid 8-byte DATA0, decoded from its bytes alone, ACKed *)
 SetupDecodedExactly ==
     [][(act'.a = "data" /\ ctx.k = "setup") =>
@@ -330,7 +365,7 @@ StatusOutOnlyAfterInData ==
 FreshSetup ==
     [][(Kind(act') = "setup_data" /\ ValidSetupData(act')) => xf' = NewXfer(act'.bytes)]_vars
 NotMine(a) == \/ Kind(a) \in {"foreign", "in_ep", "in_none", "out_ep_tok", "out_none_tok", "out_ep_data",
-                              "out_none_data", "stray_data", "sof", "junk", "stray_hs", "idle"}
+                              "out_none_data", "stray_data", "sof", "junk", "stray_hs", "idle", "foreign_ack"}
               \/ (Kind(a) = "ack" /\ ctx.ep # 0)
 OtherTrafficInvisible == [][NotMine(act') => (xf' = xf /\ addr' = addr /\ cfg' = cfg)]_vars
 
@@ -358,6 +393,14 @@ UnsupStalledAtFirstChance ==
 UnsupNoStateChange ==
     [][(xf.cls = "unsup" /\ Open(xf) /\ act'.a # "reset") => (addr' = addr /\ cfg' = cfg)]_vars
 
+ToggleMovesOnlyByOwnTraffic ==      \* no control request that is STALLed / unsupported, and no foreign traffic, touches a toggle
+    [][\A e \in InEps : (tgl'[e] # tgl[e]) =>
+          \/ (Kind(act') = "in_ep" /\ act'.ep = e /\ IsData(resp'))
+          \/ (Kind(act') = "ack" /\ ctx.ep = e)
+          \/ act'.a = "reset"
+          \/ (Commits(act') /\ xf.cls = "sup" /\ xf.req \in {1, 9})
+          \/ (Kind(act') = "foreign_ack" /\ pend = e)]_vars
+
 (* C20 - the device only ever answers an IN token, or a good data packet after a SETUP/OUT token, addressed to it *)
 Solicited ==
     [][resp'.k # "none" =>
@@ -367,11 +410,13 @@ Solicited ==
 TypeOK == /\ addr \in 0..127 /\ cfg \in 0..255
           /\ xf.st \in {"none", "reset", "din", "dout", "sin", "sout", "done", "stall", "broken"}
           /\ xf.cls \in {"sup", "unsup", "gray"} /\ xf.sent <= xf.len /\ xf.tog \in {0, 1}
-          /\ ctx.k \in {"none", "setup", "out", "sent", "ftok", "btok"}
+          /\ ctx.k \in {"none", "setup", "out", "sent", "ftok", "btok", "fin"}
+          /\ \A e \in InEps : tgl[e] \in {0, 1, 2}
+          /\ pend \in InEps \cup {0, NoEp}
 
 (* act/resp label the step that led to a state; no formula above reads them unprimed, so the model may *)
 (* identify states that differ only in them.                                                           *)
-CoreView == <<addr, cfg, xf, ctx, stale, armed, unacked, lastOut>>
+CoreView == <<addr, cfg, xf, ctx, tgl, pend, stale, armed, unacked, lastOut>>
 (* With Clean = FALSE nothing reads the carve-out ghosts either (EnvOK only consults them when Clean).  *)
-RefView == <<addr, cfg, xf, ctx>>
+RefView == <<addr, cfg, xf, ctx, tgl, pend>>
 =============================================================================
